@@ -826,7 +826,10 @@ def lookup_stream(rep, drv, rng, n, stats):
         exp.append(["none"] if isinstance(r, str) else ["some", r.name, "1" if isinstance(r, ExternalModule) else "0"])
         # Project.find
         colls = sorted(set(fp.LINK_TYPES.values()))
-        proj = types.SimpleNamespace()
+        # a real Project object without __init__ (no parsing): `find` may call helper methods of the class
+        # (collections that are properties of the class are shadowed by plain attributes)
+        proj = object.__new__(type("_ProbeProject", (fp.Project,), {
+            c: None for c in colls if isinstance(getattr(fp.Project, c, None), property)}))
         req_c = []
         extset = set()
         for c in colls:
